@@ -349,9 +349,15 @@ def write_dispatch(schema, out, crate):
             continue
         lines.append(f'    r.add::<{crate}::{rust_path(path)}>("{path}");')
     lines.append('}')
+    # type URLs are discovered by the compiler, not by parsing type_urls.rs: for every message type the
+    # macro registers the URL check iff the type implements TypeUrl (autoref specialisation at a concrete type)
     lines.append('pub fn register_urls(r: &mut crate::Registry) {')
-    for u in schema['type_urls']:
-        lines.append(f'    r.add_url::<{crate}::{u["rust"]}>("{u["path"]}");')
+    lines.append('    #[allow(unused_imports)]')
+    lines.append('    use crate::{ViaNone, ViaUrl};')
+    for path, it in sorted(schema['items'].items()):
+        if it['item'] != 'message':
+            continue
+        lines.append(f'    (&&crate::Wrap::<{crate}::{rust_path(path)}>(std::marker::PhantomData)).reg_url(r, "{path}");')
     lines.append('}')
     new = '\n'.join(lines) + '\n'
     old = open(out).read() if os.path.exists(out) else None
